@@ -54,6 +54,18 @@ CLAIMS = {
             "thorough: every bit) and each execution must be explained by the contract with the invariant holding in every explaining state.",
             "Trusted: TLC, the proxy (it logs the fault it effectively applied). Multi-fault schedules are explored in the model only.",
             "4/C10"),
+    "C18": ("fault_enumeration",
+            "TLC model checking of Entropy.tla + link-time getentropy interposition with a failure injected at every draw index, validated against EntropyTrace.tla",
+            "Every randomised API operation and the three handshakes in both roles are run clean, on an equal and a different entropy stream, repeated within one stream, and with the source failing at each draw index; "
+            "TLC checks on the recorded events that positions are consumed once and in order, that a failed draw means failure and nothing but an alert emitted, that success consumed entropy, and that ephemeral values are equal exactly for equal streams and never repeat.",
+            "Trusted: TLC, the interposed getentropy/send in the harness. An encrypted TLS 1.3 alert is recognised by its length.",
+            "4/C18"),
+    "C19": ("exploration",
+            "Leak.tla judge over Op events: fd 1/2 captured per operation and searched for every secret the harness can name",
+            "API operations that handle secrets (success and failure paths) and 48 handshake scenarios (honest, defective credentials, tampering, failing entropy) are run with stdout/stderr captured; private scalars, "
+            "all entropy draws, master secret, key block, IVs, passwords and plaintext are searched raw, hex, base64, word-swapped and by 16-byte windows; only an explicit print may show a secret.",
+            "Only secrets the harness can name are searched; default build configuration.",
+            "4/C19"),
 }
 
 PENDING_REASON = "check under construction in this round (see DESIGN.md section 4); not claimed until it runs clean on the unchanged tree"
